@@ -219,4 +219,221 @@ theorem cmdHeader_tag {s : S} {tag name s1} (h : cmdHeader s = (some (tag, name)
             · cases h; exact ht
           · cases h; exact ht
 
+/-! ### the end of the line -/
+
+theorem tw_all (valid : Nat → Bool) : ∀ (t : Bytes), (∀ b ∈ t, valid b = true) → List.takeWhile valid t = t := by
+  intro t
+  induction t with
+  | nil => intro _; rfl
+  | cons a t ih =>
+    intro h
+    simp only [List.takeWhile_cons, h a (by simp), if_true]
+    rw [ih (fun b hb => h b (by simp [hb]))]
+
+theorem noEol_notEol {t : Bytes} (ht : noEol t) : ∀ b ∈ t, notEol b = true := by
+  intro b hb
+  have := ht b hb
+  simp [notEol, this.1, this.2]
+
+theorem accept_hit (s : S) (w : Nat) (r : Bytes) (hl : s.lit = none) (hi : s.inp = w :: r) :
+    s.accept w = (true, ({ s with crlf := false } : S).take 1 .text) := by
+  obtain ⟨inp, pos, err, lit, crlf, tail, ld, mute, st, evs, roles⟩ := s
+  simp only at hl hi
+  subst hl hi
+  simp [S.accept, S.look]
+
+theorem accept_miss (s : S) (b w : Nat) (r : Bytes) (hl : s.lit = none) (hi : s.inp = b :: r) (hne : b ≠ w) :
+    s.accept w = (false, { s with crlf := false }) := by
+  obtain ⟨inp, pos, err, lit, crlf, tail, ld, mute, st, evs, roles⟩ := s
+  simp only at hl hi
+  subst hl hi
+  simp [S.accept, S.look, hne]
+
+/-- CRLF() at the very end of the line: consumes CR LF, nothing liberal about it -/
+theorem crlfP_at_eol (s : S) (rest : Bytes) (hl : s.lit = none) (hi : s.inp = 13 :: 10 :: rest) :
+    ∃ s', s.crlfP = (true, s') ∧ Adv s s' [13, 10] ∧ s'.crlf = true ∧ s'.inp = rest := by
+  unfold S.crlfP
+  rw [accept_miss s 13 32 _ hl hi (by decide)]
+  dsimp only
+  rw [accept_hit { s with crlf := false } 13 (10 :: rest) hl hi]
+  dsimp only
+  rw [accept_hit (({ s with crlf := false } : S).take 1 .text) 10 rest (by simp [S.take, hl]) (by simp [S.take, hi])]
+  dsimp only
+  refine ⟨_, rfl, ?_, rfl, by simp [S.take, hi]⟩
+  refine ⟨by simp [S.take, hi], by simp [S.take, hi], by simp [S.take, hi], by simp [S.take], rfl, rfl, by simp [S.take], rfl⟩
+
+/-- CRLF() before the end of the line (the rest of the line does not end in SP): fails, having
+    consumed at most one SP -/
+theorem crlfP_mid (s : S) (b : Nat) (t rest : Bytes) (hl : s.lit = none)
+    (hi : s.inp = (b :: t) ++ 13 :: 10 :: rest) (ht : noEol (b :: t)) (hsp : (b :: t).getLast? ≠ some 32) :
+    (s.crlfP).1 = false ∧ (s.crlfP).2.crlf = false ∧
+      ∃ c t', b :: t = c ++ t' ∧ Adv s (s.crlfP).2 c := by
+  have hb := ht b (by simp)
+  simp only [List.cons_append] at hi
+  by_cases h32 : b = 32
+  · subst h32
+    cases t with
+    | nil => simp at hsp
+    | cons b2 t2 =>
+      have hb2 := ht b2 (by simp)
+      simp only [List.cons_append] at hi
+      unfold S.crlfP
+      rw [accept_hit s 32 _ hl hi]
+      dsimp only
+      rw [accept_miss (({ s with crlf := false } : S).take 1 .text) b2 13 (t2 ++ 13 :: 10 :: rest)
+        (by simp [S.take, hl]) (by simp [S.take, hi]) hb2.1]
+      dsimp only
+      rw [accept_miss _ b2 10 (t2 ++ 13 :: 10 :: rest) (by simp [S.take, hl]) (by simp [S.take, hi]) hb2.2]
+      dsimp only
+      refine ⟨by simp, by simp, [32], b2 :: t2, by simp, ?_⟩
+      simp only [Bool.false_eq_true, if_false]
+      refine ⟨by simp [S.take, hi], by simp [S.take, hi], by simp [S.take, hi], by simp [S.take], rfl, rfl, by simp [S.take], rfl⟩
+  · unfold S.crlfP
+    rw [accept_miss s b 32 _ hl hi h32]
+    dsimp only
+    rw [accept_miss { s with crlf := false } b 13 _ hl hi hb.1]
+    dsimp only
+    rw [accept_miss ({ ({ s with crlf := false } : S) with crlf := false } : S) b 10 _ hl hi hb.2]
+    dsimp only
+    refine ⟨by simp, by simp, [], b :: t, by simp, ?_⟩
+    simp only [Bool.false_eq_true, if_false]
+    exact ⟨by simp, by simp, by simp, rfl, rfl, rfl, rfl, rfl⟩
+
+theorem func_eq (s : S) (valid : Nat → Bool) (tok : Bytes) (c : Nat) (r : Bytes) (hl : s.lit = none)
+    (hi : s.inp = tok ++ c :: r) (hv : ∀ b ∈ tok, valid b = true) (hc : valid c = false) :
+    s.func valid = (if tok.isEmpty then none else some tok, ({ s with crlf := false } : S).take tok.length .text) := by
+  obtain ⟨inp, pos, err, lit, crlf, tail, ld, mute, st, evs, roles⟩ := s
+  simp only at hl hi
+  subst hl hi
+  cases tok with
+  | nil => simp [S.func, S.take, hc]
+  | cons a t =>
+    have htw : List.takeWhile valid (a :: (t ++ c :: r)) = a :: t := by
+      have := tw_app valid (a :: t) c r hv hc
+      simpa using this
+    simp [S.func, S.take, htw]
+
+/-- DiscardLine on the rest `t` of a line: consumes `t` CRLF; the tail it looks at is `t` (or the
+    earlier tail when `t` is empty) -/
+theorem discardLine_line (fx : Fixes) (s : S) (t rest : Bytes) (hl : s.lit = none) (hc : s.crlf = false)
+    (hi : s.inp = t ++ 13 :: 10 :: rest) (ht : noEol t) :
+    let s' := s.discardLine fx
+    let tl := if t.isEmpty then s.tail else t
+    s'.inp = rest ∧ s'.pos = s.pos + t.length + 2 ∧
+      s'.roles = List.replicate (t.length + 2) Role.text ++ s.roles ∧
+      s'.tail = tl ∧ s'.lit = (if fx.discard && nonSyncSuffix tl then some true else none) ∧
+      s'.st = s.st ∧ s'.evs = s.evs ∧ s'.mute = s.mute := by
+  intro s' tl
+  have htext : s.textP = (if t.isEmpty then none else some t,
+      { (({ s with crlf := false } : S).take t.length .text) with tail := tl }) := by
+    unfold S.textP
+    rw [func_eq s notEol t 13 (10 :: rest) hl hi (noEol_notEol ht) (by decide)]
+    cases t with
+    | nil => simp [tl, S.take]
+    | cons a t' => simp [tl]
+  obtain ⟨s2, hcr, hadv, hcrlf, hinp⟩ := crlfP_at_eol
+    ({ (({ s with crlf := false } : S).take t.length .text) with tail := tl } : S) rest
+    (by simp [S.take, hl]) (by simp [S.take, hi])
+  have hs' : s' = if fx.discard && true && nonSyncSuffix s2.tail then { s2 with lit := some true } else s2 := by
+    show s.discardLine fx = _
+    unfold S.discardLine
+    simp only [hc, Bool.false_eq_true, if_false, htext, hcr]
+  have htl : s2.tail = tl := by rw [hadv.tail]
+  have hlit2 : s2.lit = none := by rw [hadv.lit]; simp [S.take, hl]
+  have hpos : s2.pos = s.pos + t.length + 2 := by
+    rw [hadv.pos]; simp [S.take, hi]
+  have hroles : s2.roles = List.replicate (t.length + 2) Role.text ++ s.roles := by
+    rw [hadv.roles]
+    simp only [S.take, hi, List.length_append, List.length_cons]
+    have : min t.length (t.length + (rest.length + 1 + 1)) = t.length := by omega
+    rw [this, ← List.append_assoc, List.replicate_append_replicate]
+    simp [Nat.add_comm]
+  have hst : s2.st = s.st := by rw [hadv.st]; simp [S.take]
+  have hevs : s2.evs = s.evs := by rw [hadv.evs]; simp [S.take]
+  have hmute : s2.mute = s.mute := by rw [hadv.mute]; simp [S.take]
+  rw [hs', htl]
+  simp only [Bool.and_true]
+  split
+  · exact ⟨hinp, hpos, hroles, rfl, rfl, hst, hevs, hmute⟩
+  · exact ⟨hinp, hpos, hroles, htl, hlit2, hst, hevs, hmute⟩
+
+/-! ### a whole command whose handler does not read: unknown commands -/
+
+theorem func_crlf {s : S} {valid : Nat → Bool} {r s1} (h : s.func valid = (r, s1)) (hl : s.lit = none) :
+    s1.crlf = false ∨ s1.evs ≠ s.evs := by
+  unfold S.func at h
+  simp only [hl, Option.isSome_none, Bool.false_eq_true, if_false] at h
+  split at h
+  · cases h; right; simp [S.sawEof, S.emit, S.take]
+  · split at h <;> (cases h; left; simp [S.take])
+
+/-- after a successful command header the decoder's crlf flag is down (the last thing read was the
+    command name) -/
+theorem cmdHeader_crlf {s : S} {tn s1} (h : cmdHeader s = (some tn, s1)) (hl : s.lit = none)
+    (t rest : Bytes) (hi : s.inp = t ++ 13 :: 10 :: rest) (ht : noEol t) : s1.crlf = false := by
+  -- the last primitive of every successful path is ExpectAtom, i.e. Func
+  have key : ∀ (s' : S) a s'', s'.lit = none → s'.expectAtom = (some a, s'') → s''.crlf = false := by
+    intro s' a s'' hl' h'
+    unfold S.expectAtom at h'
+    split at h'
+    · rename_i a' s3 h3
+      cases h'
+      unfold S.func at h3
+      simp only [hl', Option.isSome_none, Bool.false_eq_true, if_false] at h3
+      split at h3
+      · cases h3
+      · split at h3
+        · cases h3
+        · cases h3; simp [S.take]
+    · cases h'
+  unfold cmdHeader at h
+  split at h
+  · cases h
+  · rename_i tag s2 h2
+    obtain ⟨c2, t2, _, a2⟩ := expectAtom_onLine h2 hl t rest hi ht
+    split at h
+    · cases h
+    · split at h
+      · cases h
+      · rename_i s3 h3
+        have l2 : s2.lit = none := by rw [a2.lit, hl]
+        have hi2 : s2.inp = t2 ++ 13 :: 10 :: rest := by
+          have := a2.inp; rw [hi] at this
+          rename_i heq; rw [‹t = c2 ++ t2›, List.append_assoc] at this
+          exact (List.append_cancel_left this).symm
+        have ht2 : noEol t2 := (noEol_append (‹t = c2 ++ t2› ▸ ht)).2
+        obtain ⟨c3, t3, ht3, a3⟩ := expectSP_onLine h3 l2 t2 rest hi2 ht2
+        have l3 : s3.lit = none := by rw [a3.lit, l2]
+        split at h
+        · cases h
+        · rename_i name0 s4 h4
+          have c4 := key s3 _ _ l3 h4
+          split at h
+          · split at h
+            · cases h
+            · rename_i name s5 h5
+              cases h
+              -- UID <sub>: ExpectSP then ExpectAtom
+              unfold uidName at h5
+              split at h5
+              · cases h5
+              · rename_i s6 h6
+                split at h5
+                · cases h5
+                · rename_i sub s7 h7
+                  cases h5
+                  have hi3 : s3.inp = t3 ++ 13 :: 10 :: rest := by
+                    have := a3.inp; rw [hi2, ht3, List.append_assoc] at this
+                    exact (List.append_cancel_left this).symm
+                  have ht3' : noEol t3 := (noEol_append (ht3 ▸ ht2)).2
+                  obtain ⟨c4', t4, ht4, a4⟩ := expectAtom_onLine h4 l3 t3 rest hi3 ht3'
+                  have l4 : s4.lit = none := by rw [a4.lit, l3]
+                  have hi4 : s4.inp = t4 ++ 13 :: 10 :: rest := by
+                    have := a4.inp; rw [hi3, ht4, List.append_assoc] at this
+                    exact (List.append_cancel_left this).symm
+                  have ht4' : noEol t4 := (noEol_append (ht4 ▸ ht3')).2
+                  obtain ⟨c6, t6, ht6, a6⟩ := expectSP_onLine h6 l4 t4 rest hi4 ht4'
+                  exact key s6 _ _ (by rw [a6.lit, l4]) h7
+          · cases h; exact c4
+
 end GoImap.Framing
